@@ -135,6 +135,8 @@ def check_hand(v, objs_in):
 # ---------------------------------------------------------------------------------------------- stream dictionaries, fonts
 
 LZW_DEFAULTS = {"Predictor": 1, "Colors": 1, "BitsPerComponent": 8, "Columns": 1, "EarlyChange": 1}
+CCITT_DEFAULTS = {"K": 0, "EndOfLine": False, "EncodedByteAlign": False, "Columns": 1728, "Rows": 0, "EndOfBlock": True,
+                  "BlackIs1": False, "DamagedRowsBeforeError": 0}          # ISO 32000-1 Table 11
 PARAM_FILTERS = ("FlateDecode", "LZWDecode")
 STREAM_KEYS = ("Length", "Filter", "DecodeParms", "F", "FFilter", "FDecodeParms")
 
@@ -148,7 +150,8 @@ def eff_filters(d):
     out = []
     for i, n in enumerate(names):
         pd = parms[i] if i < len(parms) and isinstance(parms[i], dict) else {}
-        out.append((str(n), sorted((k, float(v)) for k, v in pd.items() if LZW_DEFAULTS.get(k) != v)))
+        dflt = CCITT_DEFAULTS if str(n) == "/CCITTFaxDecode" else LZW_DEFAULTS
+        out.append((str(n), sorted((k, float(v)) for k, v in pd.items() if dflt.get(k) != v)))
     return out
 
 
@@ -182,7 +185,12 @@ def stream_cases(rng, tier):
     for _ in range(n):
         G = T.Gen(S(), rng)
         k = rng.randrange(4)
-        names = [rng.choice(["ASCIIHexDecode", "ASCII85Decode", "RunLengthDecode", "FlateDecode", "LZWDecode"]) for _ in range([0, 1, 2, 3][k])]
+        # the image codecs and /Crypt are only *named* here (no parameters): the filter list read and written back must be
+        # the one the dictionary states (mutation sweep, survivor #0119)
+        pool = ["ASCIIHexDecode", "ASCII85Decode", "RunLengthDecode", "FlateDecode", "LZWDecode"]
+        if rng.random() < 0.35:
+            pool = pool + ["CCITTFaxDecode", "JBIG2Decode", "DCTDecode", "JPXDecode", "Crypt"]
+        names = [rng.choice(pool) for _ in range([0, 1, 2, 3][k])]
         d = {"Length": 0}
         parms = []
         for nm in names:
